@@ -54,6 +54,7 @@ def units(tier, seed):
     u.append(dict(layer="prism"))
     u.append(dict(layer="elevated"))
     u.append(dict(layer="mixed"))
+    u.append(dict(layer="beside"))
     return u
 
 
@@ -105,6 +106,13 @@ def run_unit(unit, acc):
             for s0, s100 in ((1.0, 3.0), (1.0, 1.0), (2.0, 0.5), (1.0, 6.0)):
                 for minp in (1, 40):
                     check_case(dict(layer="elevated", zc=zc, s0=s0, s100=s100, minp=minp), acc)
+    elif unit["layer"] == "beside":
+        # a non-detection area that begins 0.2 m beside an annotated object: the object's box scaled by 1.5 reaches into the area although its
+        # annotated footprint does not (manager.crop_pointcloud, and add_frame_result with that object filtered out by uuid)
+        for bi in range(3):
+            for side in ("left", "right", "front"):
+                for sc in (1.5, 1.0, 2.0):
+                    check_case(dict(layer="beside", box=bi, side=side, scale=sc), acc)
     elif unit["layer"] == "mixed":
         # a small object whose centre is nearer than the centre of a much larger one that reaches further towards the sensor, with all
         # points closer than both centres
@@ -386,6 +394,53 @@ def check_case(case, acc):
                     len(gotv), len(wantv), sorted(set(gotv) ^ set(wantv))[:2]))
         acc.state(("prism", case["poly"], case["reversed"], tuple(case["z"]), case.get("shift", 0), len(inside)), nontrivial=0 < len(inside) < len(PC))
         acc.outcome(("prism", len(inside)))
+    elif lay == "beside":
+        root, d = _sensing_manager("t4")
+        sc = case["scale"]
+        cfgd = {"evaluation_task": "sensing", "target_uuids": None, "box_scale_0m": sc, "box_scale_100m": sc, "min_points_threshold": 1}
+        with contextlib.redirect_stderr(io.StringIO()), contextlib.redirect_stdout(io.StringIO()):
+            ec = SensingEvaluationConfig([root], "base_link", os.path.join(d, "res_b"), cfgd)
+            m = SensingEvaluationManager(ec)
+        fg = m.ground_truth_frames[0]
+        bx, by, byaw, (bw, bl, bh) = FRAME_BOXES[case["box"]]
+        # the area in the box's own axes (u along the length, v along the width), starting 0.2 m outside the annotated footprint
+        if case["side"] == "front":
+            urng, vrng = (bl / 2 + 0.2, bl / 2 + 3.0), (-1.5 * bw, 1.5 * bw)
+        else:
+            sgn = 1.0 if case["side"] == "left" else -1.0
+            urng, vrng = (-bl, bl), tuple(sorted((sgn * (bw / 2 + 0.2), sgn * (bw / 2 + 3.0))))
+        loc = [(urng[0], vrng[0]), (urng[1], vrng[0]), (urng[1], vrng[1]), (urng[0], vrng[1])]
+        poly = [(bx + geom.rot2(u_, v_, byaw)[0], by + geom.rot2(u_, v_, byaw)[1]) for u_, v_ in loc]
+        key = ("beside", case["box"], case["side"])
+        if key not in _EPC:
+            pts = []
+            for fu in (0.03, 0.12, 0.21, 0.3, 0.45, 0.7, 0.95):
+                for fv in (0.03, 0.12, 0.21, 0.3, 0.45, 0.7, 0.95):
+                    u_, v_ = urng[0] + fu * (urng[1] - urng[0]), vrng[0] + fv * (vrng[1] - vrng[0])
+                    dx, dy = geom.rot2(u_, v_, byaw)
+                    pts.append((bx + dx, by + dy, 0.7, 1.0))
+            _EPC[key] = np.array(pts)
+        PC = _EPC[key]
+        zr = (-1.0, 2.0)
+        area = [(x, y, zr[0]) for x, y in poly] + [(x, y, zr[1]) for x, y in poly]
+        acc.exec()
+        out = m.crop_pointcloud(ground_truth_objects=list(fg.objects), pointcloud=PC, non_detection_areas=[area], transforms=fg.transforms)
+        acc.compared()
+        pin, pdist = _poly_mask(PC, poly)
+        any_box = np.zeros(len(PC), dtype=bool)
+        amb = pdist < 1e-9
+        for b in FRAME_BOXES:
+            inside, margin = _box_mask(PC, b, sc, 0.7)
+            any_box |= inside
+            amb |= margin < 1e-9
+        want = sorted(tuple(np.round(p_, 9)) for p_ in PC[pin & ~any_box & ~amb])
+        ambs = {tuple(np.round(p_, 9)) for p_ in PC[amb]}
+        got = [r_ for r_ in (_rows(out[0]) if len(out) else []) if r_ not in ambs]
+        acc.state(("beside", case["box"], case["side"], sc, len(want), int((pin & any_box).sum())), nontrivial=bool((pin & any_box).any()))
+        acc.outcome(("beside", len(want)))
+        if got != want:
+            bad("manager-crop:rows", "manager.crop_pointcloud keeps %d points of an area beginning 0.2 m beside object %d (box scale %s), %d lie in the area and outside every "
+                "scaled box" % (len(got), case["box"], sc, len(want)))
     elif lay == "mixed":
         boxes = list(MIXED[case["scene"]])
         if case["order"]:
